@@ -105,5 +105,6 @@ func stressClasses() []stressClass {
 		{"negative_enum_values", "negative_enum_value", func(c *idl.Config) { c.NegativeEnumValues = true }},
 		{"const_map_non_string_keys", "const_map_non_string_key", func(c *idl.Config) { c.ConstMapNonStringKeys = true }},
 		{"default_from_named_constant", "default_from_named_constant", func(c *idl.Config) { c.DefaultsFromConstants = true }},
+		{"enum_non_ascending_explicit", "enum_non_ascending_explicit", func(c *idl.Config) { c.EnumNonAscending = true }},
 	}
 }
